@@ -7,12 +7,11 @@
     sorted by score then member; Redis' rank-range rule).  f64 text <-> bits and
     the f64 sum of ZINCRBY are oracles.
 
-    Recorded defect classes (known_findings.json; `_refuted` lemmas below):
-      zset-nan            NaN accepted by ZADD / produced by ZINCRBY (F-04a)
-      zrange-neg-stop     ZRANGE/ZREVRANGE with stop < -len (F-04b)
-      zrevrange-beyond    ZREVRANGE with start >= len (F-04b)
-      zadd-partial        multi-member ZADD applied pair by pair (F-04c)
-      zbyscore-nan-bound  NaN accepted as a score bound *)
+    The model is written for /repo after the repairs beb3269 (NaN refused by ZADD and
+    ZINCRBY, every ZADD pair validated before the first is applied), 76804df (rank-range
+    normalisation) and 774140b (NaN score bounds refused); the property is stated at full
+    strength: for every history and every oracle, no hypothesis excludes an input class.
+    Only remaining recorded class: zpop-count0-wrongtype (reply shape, not stated here). *)
 From Coq Require Import Sorting.Sorted.
 From Ferrous Require Import Base.Bytes Model.Resp Model.Types Model.Strings Model.SkipList Model.ZSets
   Spec.ZSet Proofs.BytesFacts Proofs.SkipListFacts Proofs.ZSetsFacts.
@@ -113,28 +112,20 @@ Theorem c04_zrank_spec :
   eng_zrank d key m true = Some (option_map (fun r => len z - 1 - r) (zs_rank m z)).
 Proof. exact eng_zrank_spec. Qed.
 
-(** ZRANGE / ZREVRANGE: the code's index arithmetic is Redis' rule on the order /
-    the reversed order, for all (unbounded) start and stop outside the recorded classes
-    (and with no exception for the repaired translation, [zrange_fixed = true]) *)
+(** ZRANGE / ZREVRANGE: the code's index arithmetic is Redis' rule on the order / the
+    reversed order, for ALL (unbounded) start and stop *)
 Theorem c04_zrange_redis :
   forall d key z start stop, zget d key = Some z ->
-  (zrange_fixed = false -> kf_zrange_fwd (len z) start stop = false) ->
   eng_zrange d key start stop false = Some (redis_slice z start stop).
 Proof. exact eng_zrange_spec. Qed.
 
 Theorem c04_zrevrange_redis :
   forall d key z start stop, zget d key = Some z ->
-  (zrange_fixed = false -> kf_zrange_rev (len z) start stop = false) ->
   eng_zrange d key start stop true = Some (redis_slice (rev z) start stop).
 Proof. exact eng_zrevrange_spec. Qed.
 
-Theorem c04_zrange_repaired_redis :
-  forall s start stop, sl_length s = len (sl_nodes s) ->
-  zrange_of_v2 s start stop false = redis_slice (sl_items s) start stop /\
-  zrange_of_v2 s start stop true = redis_slice (rev (sl_items s)) start stop.
-Proof. intros. split; [apply zrange_fwd_redis_v2|apply zrange_rev_redis_v2]; assumption. Qed.
-
-(** ZRANGEBYSCORE / ZREVRANGEBYSCORE / ZCOUNT: exactly the members with min <= score <= max *)
+(** ZRANGEBYSCORE / ZREVRANGEBYSCORE / ZCOUNT: exactly the members with min <= score <= max
+    (the handlers only pass non-NaN bounds: c04_nan_bound_refused) *)
 Theorem c04_rangebyscore_spec :
   forall d key z mn mx, db_zok d -> zget d key = Some z -> f_is_nan mn = false ->
   eng_zrangebyscore d key mn mx false = Some (zs_byscore mn mx z) /\
@@ -151,8 +142,8 @@ Proof. intros. split; [apply eng_zscore_spec|apply eng_zcard_spec]; assumption. 
 Theorem c04_zadd_spec :
   forall d key m sc, db_zok d -> f_is_nan sc = false ->
   match zget d key with
-  | None => eng_zadd d key m sc = None
-  | Some z => exists d', eng_zadd d key m sc = Some (is_none (zs_lookup m z), d') /\
+  | None => eng_zadd d key m sc = EWrongType
+  | Some z => exists d', eng_zadd d key m sc = EOk (is_none (zs_lookup m z), d') /\
                          zget d' key = Some (zs_add m sc z) /\
                          (forall k', k' <> key -> get_entry d' k' = get_entry d k') /\ db_zok d'
   end.
@@ -169,11 +160,18 @@ Theorem c04_zrem_spec :
   end.
 Proof. exact eng_zrem_spec. Qed.
 
-(** removing the last member removes the key *)
-Theorem c04_last_removed :
-  forall d key m sc, db_zok d -> zget d key = Some [(m, sc)] ->
-  exists d', h_zrem d (cmd [bs "ZREM"; key; m]) = (r_int 1, d') /\ get_entry d' key = None.
-Proof. exact zrem_last_member. Qed.
+(** ZINCRBY: whatever sum the oracle reports, a stored score is never NaN; the set becomes
+    [zs_add] with the increment (new member) or the reported sum (existing member) *)
+Theorem c04_zincrby_spec :
+  forall d key m inc sum, db_zok d ->
+  match eng_zincrby d key m inc sum with
+  | EOk (v, d') => f_is_nan v = false /\ db_zok d' /\
+                   exists z, zget d key = Some z /\ zget d' key = Some (zs_add m v z) /\
+                             (zs_lookup m z = None -> v = inc) /\ (zs_lookup m z <> None -> sum = Some v)
+  | EWrongType => zget d key = None /\ f_is_nan inc = false
+  | EErr => True
+  end.
+Proof. exact eng_zincrby_spec. Qed.
 
 (** ZPOPMIN pops the smallest members in order and leaves the rest *)
 Theorem c04_popmin_spec :
@@ -182,28 +180,74 @@ Theorem c04_popmin_spec :
              zget d' key = Some (skipn fuel z) /\ db_zok d'.
 Proof. exact zpopmin_loop_spec. Qed.
 
-(** every sorted-set command keeps every stored sorted set well formed and
-    non-empty, provided no score supplied by the oracle is NaN; lifted to all histories *)
+(** ---- 6. the property over all histories, for every oracle ---- *)
+(** every sorted-set command keeps every stored sorted set well formed (strictly sorted by
+    score then member, members unique, no NaN) and non-empty - whatever the oracle reports for
+    score parses and sums *)
 Theorem c04_exec_preserves_inv :
-  forall now d name parts oracle r d', db_zok d -> oracle_nonan oracle ->
+  forall now d name parts oracle r d', db_zok d ->
   exec_zsets now d name parts oracle = Some (r, d') -> db_zok d'.
 Proof. exact exec_zsets_zok. Qed.
 
-Theorem c04_history_inv :
-  forall cmds, Forall (fun c : zcmd => oracle_nonan (snd c)) cmds -> db_zok (run_zcmds empty_db cmds).
-Proof. intros. apply run_zcmds_zok; [exact db_zok_empty|assumption]. Qed.
+Theorem c04_history_inv : forall cmds, db_zok (run_zcmds empty_db cmds).
+Proof. intros. apply run_zcmds_zok, db_zok_empty. Qed.
 
-(** an error reply leaves the database unchanged (every command but a multi-pair ZADD) *)
+(** "a score that is not a number is never stored" *)
+Theorem c04_no_nan_stored :
+  forall cmds key m sc,
+  eng_zscore (run_zcmds empty_db cmds) key m = Some (Some sc) -> f_is_nan sc = false.
+Proof. exact no_nan_stored. Qed.
+
+(** "ZADD nan and an increment producing NaN are refused": a NaN score anywhere in a ZADD
+    refuses the whole command; a NaN increment or a NaN sum refuses ZINCRBY *)
+Theorem c04_zadd_refuses_nan :
+  forall d parts oracle k b, (2 + 2 * k + 1 < length parts)%nat ->
+  float_arg parts oracle (2 + 2 * k) = Some b -> f_is_nan b = true ->
+  h_zadd d parts oracle = (r_err, d).
+Proof. exact h_zadd_refuses_nan. Qed.
+
+Theorem c04_zincrby_refuses_nan :
+  forall d key m inc sum,
+  (f_is_nan inc = true -> eng_zincrby d key m inc sum = EErr) /\
+  (forall z old v, zget d key = Some z -> zs_lookup m z = Some old -> get_entry d key <> None ->
+     sum = Some v -> f_is_nan v = true -> f_is_nan inc = false -> eng_zincrby d key m inc sum = EErr).
+Proof. exact eng_zincrby_refuses_nan. Qed.
+
+(** a NaN bound is refused by ZRANGEBYSCORE / ZREVRANGEBYSCORE / ZCOUNT *)
+Theorem c04_nan_bound_refused :
+  forall d parts oracle i b, (i = 2 \/ i = 3)%nat -> oscore oracle i = Some b -> f_is_nan b = true ->
+  (forall rev, h_zrangebyscore rev d parts oracle = (r_err, d)) /\ h_zcount d parts oracle = (r_err, d).
+Proof. exact nan_bound_refused. Qed.
+
+(** "a refused multi-member ZADD adds nothing": an error reply leaves the database unchanged,
+    for every command *)
 Theorem c04_failure_atomic :
-  forall now d name parts oracle r d', db_zok d -> (beq name (bs "ZADD") = true -> nparts parts = 4) ->
+  forall now d name parts oracle r d', db_zok d ->
   exec_zsets now d name parts oracle = Some (r, d') -> is_error r = true -> d' = d.
 Proof. exact exec_zsets_failure_atomic. Qed.
 
-(** ---- 6. refuted on the unchanged tree (the model reproduces the code) ---- *)
+Theorem c04_failure_atomic_reachable :
+  forall cmds now name parts oracle r d',
+  exec_zsets now (run_zcmds empty_db cmds) name parts oracle = Some (r, d') -> is_error r = true ->
+  d' = run_zcmds empty_db cmds.
+Proof. exact failure_atomic_reachable. Qed.
 
+(** "removing the last member removes the key": in every reachable state *)
+Theorem c04_last_removed :
+  forall cmds key m sc,
+  let d := run_zcmds empty_db cmds in
+  zget d key = Some [(m, sc)] ->
+  exists d', h_zrem d (cmd [bs "ZREM"; key; m]) = (r_int 1, d') /\ get_entry d' key = None.
+Proof. exact zrem_last_member_reachable. Qed.
 
+Theorem c04_no_empty_set_stored :
+  forall cmds key e, get_entry (run_zcmds empty_db cmds) key = Some e -> e_val e <> VZSet [].
+Proof. exact no_empty_zset_stored. Qed.
+
+(** ---- 7. why the guards matter: the skip list alone cannot get rid of a NaN ---- *)
 (** a NaN node can never be unlinked (`value == score` is false), so after
-    insert(m, NaN); remove(m) the chain and `length` keep it while the index forgot it *)
+    SkipList::insert(m, NaN); remove(m) the chain and `length` keep it while the index forgot
+    it - the engine's refusal of NaN (beb3269) is what makes [Inv] hold in every reachable state *)
 Theorem c04_nan_node_unremovable :
   forall s k v, f_is_nan v = true -> remove_node_by_score s k v = s.
 Proof. exact remove_nan_noop. Qed.
@@ -212,22 +256,40 @@ Theorem c04_nan_breaks_inv_refuted :
   sl_length s = 1 /\ sl_index s = [] /\ sl_items s = [(bs "m", nan_bits)] /\ ~ Inv s.
 Proof. exact nan_breaks_inv. Qed.
 
-(** ZRANGE z 0 -100 / ZREVRANGE z 5 10 on three members return one member *)
-Theorem c04_zrange_neg_stop_refuted :
-  kf_zrange_fwd 3 0 (-100) = true /\
-  zrange_of_v1 (z2sl z3) 0 (-100) false = [(bs "a", one_bits)] /\ redis_slice z3 0 (-100) = [].
-Proof. exact zrange_neg_stop_witness. Qed.
-Theorem c04_zrevrange_beyond_refuted :
-  kf_zrange_rev 3 5 10 = true /\
-  zrange_of_v1 (z2sl z3) 5 10 true = [(bs "a", one_bits)] /\ redis_slice (rev z3) 5 10 = [].
-Proof. exact zrevrange_beyond_witness. Qed.
-
-
-(** a NaN bound is accepted and selects everything up to max *)
-Theorem c04_byscore_nan_bound_refuted :
-  sl_range_by_score (z2sl z3) nan_bits two_bits = sl_nodes (z2sl [(bs "a", one_bits); (bs "b", two_bits)]) /\
-  zs_byscore nan_bits two_bits z3 = [].
-Proof. exact zrangebyscore_nan_bound_witness. Qed.
+(** ---- regression examples: the witnesses of the repaired classes ---- *)
+Example c04_zadd_nan_refused :
+  exec_zsets 0 empty_db (bs "ZADD") (cmd [bs "ZADD"; kz; bs "nan"; bs "m"])
+    (oracle_of [None; None; Some nan_bits; None]) = Some (r_err, empty_db).
+Proof. exact zadd_nan_refused_example. Qed.
+Example c04_zincrby_nan_refused :
+  exists d1,
+    exec_zsets 0 empty_db (bs "ZADD") (cmd [bs "ZADD"; kz; bs "inf"; bs "m"])
+      (oracle_of [None; None; Some pinf_bits; None]) = Some (r_int 1, d1) /\
+    exec_zsets 0 d1 (bs "ZINCRBY") (cmd [bs "ZINCRBY"; kz; bs "-inf"; bs "m"])
+      (oracle_of [None; None; Some ninf_bits; None; None]) = Some (r_err, d1) /\
+    exec_zsets 0 d1 (bs "ZINCRBY") (cmd [bs "ZINCRBY"; kz; bs "-inf"; bs "m"])
+      (oracle_of [None; None; Some ninf_bits; None; Some nan_bits]) = Some (r_err, d1) /\
+    eng_zscore d1 kz (bs "m") = Some (Some pinf_bits).
+Proof. exact zincrby_nan_refused_example. Qed.
+Example c04_zadd_atomic :
+  exec_zsets 0 empty_db (bs "ZADD") (cmd [bs "ZADD"; kz; bs "1"; bs "a"; bs "x"; bs "b"])
+    (oracle_of [None; None; Some one_bits; None; None; None]) = Some (r_err, empty_db).
+Proof. exact zadd_atomic_example. Qed.
+Example c04_zrange_out_of_range_empty :
+  zrange_of (z2sl z3) 0 (-100) false = [] /\ zrange_of (z2sl z3) 0 (-100) true = [] /\
+  zrange_of (z2sl z3) 5 10 true = [] /\ zrange_of (z2sl z3) (-100) 100 true = rev z3.
+Proof. exact zrange_out_of_range_example. Qed.
+Example c04_nan_bound_refused_example :
+  exec_zsets 0 d3 (bs "ZRANGEBYSCORE") (cmd [bs "ZRANGEBYSCORE"; kz; bs "nan"; bs "2"])
+    (oracle_of [None; None; Some nan_bits; Some two_bits]) = Some (r_err, d3) /\
+  exec_zsets 0 d3 (bs "ZCOUNT") (cmd [bs "ZCOUNT"; kz; bs "nan"; bs "2"])
+    (oracle_of [None; None; Some nan_bits; Some two_bits]) = Some (r_err, d3).
+Proof. exact nan_bound_refused_example. Qed.
+Example c04_last_member_example :
+  exists d1, exec_zsets 0 empty_db (bs "ZADD") (cmd [bs "ZADD"; kz; bs "1"; bs "m"])
+               (oracle_of [None; None; Some one_bits; None]) = Some (r_int 1, d1) /\
+             exec_zsets 0 d1 (bs "ZREM") (cmd [bs "ZREM"; kz; bs "m"]) None = Some (r_int 1, empty_db).
+Proof. exact last_member_example. Qed.
 
 (** ---- non-vacuity ---- *)
 (** a reachable three-member state (equal scores, a negative zero) satisfies the
@@ -237,17 +299,7 @@ Example c04_inv_reachable :
                       (bs "c") 9223372036854775808 7)).
 Proof. repeat apply sl_insert_inv; try reflexivity. exact inv_new. Qed.
 Example c04_db_zok_reachable :
-  exists d, db_zok d /\ zget d kz = Some z3 /\
-  d = run_zcmds empty_db
+  zget (run_zcmds empty_db
         [(bs "ZADD", cmd [bs "ZADD"; kz; bs "3"; bs "c"; bs "1"; bs "a"; bs "2"; bs "b"],
-          oracle_of [None; None; Some three_bits; None; Some one_bits; None; Some two_bits; None])].
-Proof.
-  eexists. split; [|split; [|reflexivity]].
-  - apply run_zcmds_zok; [exact db_zok_empty|]. repeat constructor.
-    intros i b. do 9 (destruct i as [|i]; cbn; try discriminate; try (intro H; inversion H; reflexivity)).
-  - vm_compute. reflexivity.
-Qed.
-Example c04_known_classes_not_everything :
-  kf_zrange_fwd 3 0 (-1) = false /\ kf_zrange_fwd 3 (-100) 100 = false /\
-  kf_zrange_rev 3 0 (-1) = false /\ kf_zrange_rev 3 1 2 = false.
-Proof. repeat split. Qed.
+          oracle_of [None; None; Some three_bits; None; Some one_bits; None; Some two_bits; None])]) kz = Some z3.
+Proof. vm_compute. reflexivity. Qed.
